@@ -1,4 +1,5 @@
 # C02 — no lost wake-up: a resumed task always runs again (structural part; DESIGN.md §5 C02)
+import re
 from engine.core import AnalysisBroken, P, T, callee_of, callee_short, cond_atoms, loc_of, strip, forward, block_path, walk, subexprs
 from engine.kinds import (LockFlow, FactFlow, CountFlow, precedes_on_all_paths, eval_walk, cond_leaves, reaching_init)
 from .common import facts, lib, local_init
@@ -30,6 +31,7 @@ def run(rep, tier):
     rep.rule("C02.R3", "K7/K3: set_thread_state: active => helper task or retry; loop exit only after restore_state; enqueue truth table")
     rep.rule("C02.R4", "K7: set_active_state aborts iff the tag changed; otherwise retries once with retry_on_active")
     rep.rule("C02.R6", "K6 (must-pass-through): every wake-up entry point (execution_agent::do_resume/resume/abort, agent_ref::resume/abort, the join callback pika::resume_thread) reaches its set_thread_state(.., pending, ..) / forwarding call on every path - a wake-up is never filtered by a look at the target's current state (the target may still be 'active' in the window before it finished suspending)")
+    rep.rule("C02.R7", "K10 (threshold relation): the retry helper for a wake-up aimed at an 'active' target is an unhinted *staged* task; idle workers convert other queues' staged tasks only when enable_stealing_staged is true, so its idle-count threshold must lie strictly below the bound at which the scheduling loop resets the idle counter (otherwise it is never true and the wake-up waits for one particular, possibly blocked, worker)")
     rep.rule("C02.R5", "K8: execution_agent passes pending/suspended and yields the requested state after recording the worker")
 
     CVF = cvdetail.load(rep)
@@ -236,3 +238,42 @@ def run(rep, tier):
         else:
             rep.bad("C02.R5", f, f.loc, "suspend-yield", "this_thread::suspend must switch out exactly once with the requested state on every path past the interruption "
                     "point (yield counts at exit: %s, requested state forwarded: %s, yield-free returns without error: %s): the caller believes it has waited" % (sorted(cf.exits), bool(argok), early_bad))
+
+
+    # ---- R7: staged stealing is reachable between two resets of the idle counter
+    from engine.kinds import eval_tree, Unknown
+    SL = facts(rep, lib("thread_pools", "src/scheduled_thread_pool.cpp"), [r"^pika::threads::detail::scheduling_loop$"])
+    loops_ = [f for f in SL.fns if not f.pattern and f.parent == -1]
+    if not loops_:
+        raise AnalysisBroken("scheduling_loop instantiations not found")
+    for f in loops_:
+        dec = [e for _, _, e in f.all_events() if e.get("k") == "decl" and e.get("var") == "enable_stealing_staged" and e.get("init") is not None]
+        ffl = FactFlow(f, eh=False)
+        resets = [(b, i, e) for b, i, e in f.all_events() if e.get("k") == "write" and P(e["lhs"]) == "idle_loop_count" and T(strip(e.get("rhs"))) == "0"]
+        if len(dec) != 1 or not resets:
+            raise AnalysisBroken("%s: enable_stealing_staged / idle counter resets not found" % f.full)
+        cmps = subexprs(dec[0]["init"], lambda y: isinstance(y, dict) and ((y.get("k") == "bin" and y.get("op") in (">", "<", ">=", "<=")) or
+                                                                          (y.get("k") == "call" and y.get("op") in (">", "<", ">=", "<="))) and "idle_loop_count" in T(y))
+        bounds = []
+        for b, i, e in resets:
+            for a, t in (ffl.before.get((b, i)) or frozenset()):
+                m = re.match(r"^(.*) < idle_loop_count$", a)
+                if t and m:
+                    bounds.append(m.group(1))
+        if not cmps or not bounds:
+            raise AnalysisBroken("%s: threshold comparison / reset bound not recognised" % f.full)
+        c = cmps[0]
+        lo, hi = (c.get("l"), c.get("r")) if c.get("k") == "bin" else ((c.get("recv") if c.get("recv") is not None else c["args"][0]), c["args"][-1])
+        thr = hi if "idle_loop_count" in T(lo) else lo
+        bound_txt = sorted(set(bounds))[0]
+        try:
+            verdict = all(eval_tree(thr, {bound_txt: X}) < X for X in (2, 1000, 200000))
+        except Unknown as ex:
+            raise AnalysisBroken("%s: cannot evaluate the staged-stealing threshold %s (%s)" % (f.full, T(thr), ex))
+        if verdict:
+            rep.ok("C02.R7", f, "staged stealing starts at idle count > %s, below the reset bound %s" % (T(thr), bound_txt))
+        else:
+            rep.bad("C02.R7", f, loc_of(dec[0]), "staged-steal-unreachable", "enable_stealing_staged requires idle_loop_count > %s, but the counter is reset to 0 as soon as it exceeds %s: "
+                    "idle workers never convert another queue's staged tasks, so the set_active_state helper (and with it the wake-up) waits for a worker that may be blocked"
+                    % (T(thr), bound_txt))
+
